@@ -9,7 +9,7 @@ if [ "$1" = "--snapshot" ]; then
 fi
 ID=$1; P=$2; TAG=$3
 [ -d $S ] || { echo "no snapshot: run try_mut.sh --snapshot"; exit 9; }
-W=/tmp/mutrepo
+W=${MUTW:-/tmp/mutrepo}
 if [ ! -d $W ]; then git -C /repo worktree prune; git -C /repo worktree add -q --detach $W HEAD; fi
 cd $W || exit 9
 git checkout -q --detach $(git -C /repo rev-parse HEAD) && git checkout -- . && git clean -fdq
